@@ -46,6 +46,9 @@ var c16Corpus = []c16Prog{
 	// an explicit, multiplied terminator in the middle of a movement (nothing after the first step_end is emitted, with or without markers)
 	{name: "terminator", text: `⟦m2 movement Mv2 { ¶ ⟦st5 stepe ⟧ ¶ ⟦se step_end * 2 ⟧ ¶ ⟦st7 stepf ⟧ ¶ } ⟧ ¶ script S8 { ¶ ⟦c50 cmd50 ( moves ( ⟦st8 stepg * 2 ⟧ ⟦se step_end * 3 ⟧ steph ) ) ⟧ ¶ } ¶ ⟦ma2 mart Mt2 { ¶ ⟦i3 ITEM3 ⟧ ¶ ⟦i4 ITEM_NONE ⟧ ¶ ⟦i5 ITEM5 ⟧ ¶ } ⟧`,
 		lines: [][2]string{{"\tstepe", "st5"}, {"\tstepg", "st8"}, {"\tcmd50 ", "c50"}, {"S8_Movement_0:", "c50"}, {"\t.2byte ITEM3", "i3"}, {"\tstep_end", "se"}, {"\t.2byte ITEM_NONE", "i4"}, {"Mv2:", "m2"}, {"Mt2:", "ma2"}}},
+	// the same content formatted twice with different string types, and once more as a text statement (anything remembered from the first call must not give the later texts its line)
+	{name: "format twice", text: `script S9 { ¶ ⟦c60 cmd60 ( format ( "fmtx" , "TEST" , 40 ) ) ⟧ ¶ ⟦c61 cmd61 ⟧ ¶ ⟦c62 cmd62 ( format ( ascii"fmtx" , "TEST" , 40 ) ) ⟧ ¶ } ¶ ⟦t9 text Tx9 { ¶ format ( braille"fmtx" , "TEST" , 40 ) ¶ } ⟧`,
+		lines: [][2]string{{"\tcmd60 ", "c60"}, {"\tcmd61", "c61"}, {"\tcmd62 ", "c62"}, {"\t.string \"fmtx$\"", "c60"}, {"\t.ascii \"fmtx\\0\"", "c62"}, {"\t.braille \"fmtx$\"", "t9"}}},
 	// a raw block whose lines contain a lone carriage return, a multi-byte character and a CRLF line end, followed by more source
 	{name: "raw content", text: `raw ⟦raw RAW2 ⟧ ¶ script S6 { ¶ ⟦c40 cmd40 ⟧ ¶ } ¶ raw ⟦raw RAW ⟧ ¶ script S7 { ¶ ⟦c41 cmd41 ⟧ ¶ }`,
 		lines: [][2]string{{"\tcmd40", "c40"}, {"\tcmd41", "c41"}}},
@@ -466,7 +469,7 @@ func runC16(tier string) int {
 	r.Assume("'the line on which the construct was written' is read as any line of the construct's source extent: the command, the label, the operand test incl. its comparison, the switch header, the case, the map-script entry head, the step / item, the whole text/movement/mart statement for the marker at its label, the enclosing command for hoisted text and moves() data; a raw line's own source line; in addition the marker in front of the first line of a multi-line text must not name a line after the one its first part is written on (the following lines of the text are counted from it)",
 		"string literals and raw blocks are single tokens (their inner layout is fixed)")
 	return r.Finish(r.Get("evaluations"), r.Get("nontrivial"),
-		"9 corpus programs covering every marker-emitting construct with unique names (incl. raw blocks whose lines hold a lone carriage return, a CRLF line end and a multi-byte character) x {default, one token per line, all on one line} + every layout obtained from the default by inserting <= k extras (line break, blank line, '#' comment, '//' comment line) at any token gaps; each layout compiled with lm on / off / on without a path; plus transparency and marker range over every program of the control-flow families (C01 / C03 / C04 bounds: all shapes, dead-label, sequence and scaled programs) and of the data families (C06 hoisting files, C08 mapscripts statements, file-level programs, reduced bounds) with optimize on and off; plus one program placed after K blank lines for every K <= 300 (thorough 3000) and around every power of two up to 2^17 (thorough 2^20); non-trivial = the source has >= 2 lines")
+		"10 corpus programs covering every marker-emitting construct with unique names (incl. raw blocks whose lines hold a lone carriage return, a CRLF line end and a multi-byte character) x {default, one token per line, all on one line} + every layout obtained from the default by inserting <= k extras (line break, blank line, '#' comment, '//' comment line) at any token gaps; each layout compiled with lm on / off / on without a path; plus transparency and marker range over every program of the control-flow families (C01 / C03 / C04 bounds: all shapes, dead-label, sequence and scaled programs) and of the data families (C06 hoisting files, C08 mapscripts statements, file-level programs, reduced bounds) with optimize on and off; plus one program placed after K blank lines for every K <= 300 (thorough 3000) and around every power of two up to 2^17 (thorough 2^20); non-trivial = the source has >= 2 lines")
 }
 
 func tagKind(tag string) string { return strings.TrimRight(tag, "0123456789") }
